@@ -733,6 +733,8 @@ fn create_parent_dirs(
 /// error.
 fn remove_old_file(disk_path: &Path) -> Result<bool, CheckoutError> {
     reject_reserved_existing_path(disk_path)?;
+    #[cfg(jj_vcs_jj_verif)]
+    crate::verif_hooks::point("wc.remove", &disk_path.to_string_lossy());
     match fs::remove_file(disk_path) {
         Ok(()) => Ok(true),
         Err(err) if err.kind() == io::ErrorKind::NotFound => Ok(false),
@@ -776,6 +778,8 @@ fn remove_old_submodule_dir(disk_path: &Path) -> Result<bool, CheckoutError> {
 ///
 /// This function can fail if `disk_path.parent()` isn't a directory.
 fn can_create_new_file(disk_path: &Path) -> Result<bool, CheckoutError> {
+    #[cfg(jj_vcs_jj_verif)]
+    crate::verif_hooks::point("wc.create", &disk_path.to_string_lossy());
     // New file or symlink will be created by caller. If it were pointed to by
     // name ".git" or ".jj", git/jj CLI could be tricked to load configuration
     // from an attacker-controlled location. So we first test the path by
